@@ -18,7 +18,10 @@ first = {'C01-a':'first','C02-a':'first','C03-a':'first','C04-a':'after (engine 
  'C02-d':'after (by C07 at first; request-shaped-members-kept then added to filterBatchLocked)','C05-d':'after (send-site assertion: the synthetic reply carries the code of pctx.Err())',
  'C06-d':'first','C07-d':'first','C08-d':'after (by C03 census at first; reserved-before-lock-dropped then added to dispatchLocked)','C10-d':'first',
  'C12-d':'after (field-name matching invariant of hdr.Recv, ghosts set where the name is folded)','C13-d':'first','C14-d':'first',
- 'C17-d':'after (assignerResult now depends on the inbound request; own-handler clause of checkAndAssignLocked)','C18-d':'first','C19-d':'first'}
+ 'C17-d':'after (assignerResult now depends on the inbound request; own-handler clause of checkAndAssignLocked)','C18-d':'first','C19-d':'first',
+ 'C01-d':'after (read: the empty-batch error only for an empty array)','C03-d':'after (numToDo: notes counted against the spec cntNotes)','C04-d':'first',
+ 'C09-d':'after (Callback/Call: once the slot settled the outcome is the reply\'s alone)','C11-d':'after (direct.Recv put under contract; receives made visible to contracts)',
+ 'C15-d':'first','C16-d':'first','C20-d':'first'}
 rows=[]
 for d in sorted(glob.glob('/verif/seeded/*/')):
     sid=os.path.basename(d.rstrip('/'))
